@@ -14,7 +14,9 @@ Open Scope Q_scope.
 Section Measure.
   (* mc = grid.middle of the coarse level l-1 (refine inserts mc x_i x_{i+1}; the coarse chain's cells use it);
      mf = grid.middle of the refined level l (the fine chain's cells and the coupling use it).  For CTMCGrid both are the
-     arithmetic mean; CTMCGridProbabilityStep.middle reads grid.h, hence differs between the two levels. *)
+     arithmetic mean, the only PROVED instance.  NOTE: mc_between / mf_between are required of ALL x < y;
+     CTMCGridProbabilityStep.middle violates that (middle(-0.001, 0) = -h/2), so these theorems do NOT cover the probability-step
+     grid: there the telescoping identity is checked by the oracle only (real-grid stream of props/C03.py, levels 1-3). *)
   Variables mc mf : Q -> Q -> Q.
   Hypothesis mc_between : forall x y, x < y -> x < mc x y /\ mc x y < y.
   Hypothesis mc_refl : forall x, ~ x == 0 -> mc x x == x.      (* used at the two end points of the axis only *)
